@@ -4,7 +4,9 @@
    the harness waits until every goroutine is durably blocked, so the observations are exact):
 
      run, q (WriteQueueSize), aa (always-available stream), src,
-     steps: << [a, ss, f, r, S,          the action the harness performed (Stream.tla vocabulary)
+     rtp (the publisher writes RTP packets: UseRTPPackets; a unit is then identified by the bytes of its packet),
+     steps: << [a, ss, f, r, S, k,       the action the harness performed (Stream.tla vocabulary; k = "frame" /
+                                         "frag": the packet completes a frame / does not, i.e. the unit has no payload)
                 skipped,                 the harness could not perform it (e.g. no callback to finish)
                 cur,                     Write: ss was the sub-stream initialised last (the current publisher)
                 pay,                     Write: the payload bytes written
@@ -80,7 +82,7 @@ RunVerdict(t, ln) ==
     \A mon \in Monitors : Monitor(MonOK(t, mon), [l |-> ln, run |-> t.run, monitor |-> mon])
 
 \* ------------------------------------------------------------------ conformance with layer 1 (never a verdict)
-ActOf(x) == A(x.a, x.ss, x.f, x.r, Range(x.S))
+ActOf(x) == A(x.a, x.ss, x.f, x.r, Range(x.S), x.k)
 \* what layer 1 says an observer sees of the step s -> n
 PredCbs(s, n)  == {[r |-> r, f |-> n.held[r].f, n |-> n.held[r].n] : r \in {r \in Readers : Began(s, n, r)}}
 ObsCbs(t, k)   == {[r |-> t.steps[k].cbs[i].r, f |-> t.steps[k].cbs[i].f, n |-> UnitOf(t, t.steps[k].cbs[i]).n] :
